@@ -23,6 +23,10 @@ func c05Drivers() []concParams {
 		{Name: "flush-vs-iter", Cfg: "flushy/bytewise", Pre: []string{"put:b"}, Clients: [][]string{{"put:a", "put:a"}, {"iterscan"}}},
 		{Name: "two-writers-merge", Cfg: "default/bytewise", Clients: [][]string{{"put:a", "put:b"}, {"put:b", "put:a"}, {"get:a", "get:b"}}, TB: 3},
 		{Name: "transaction-vs-reader", Cfg: "bigbatch/bytewise", Pre: []string{"put:a"}, Clients: [][]string{{"tr:+a,+b"}, {"get:a", "get:b"}}},
+		// a snapshot taken while a transaction commit is in flight is one cut: reading the same key
+		// again after the commit finished gives the same answer
+		{Name: "transaction-vs-snapshot", Cfg: "bigbatch/bytewise", Pre: []string{"put:a", "put:b"}, Clients: [][]string{{"tr:+a,+b"}, {"snapget:a,b,a"}}, QB: 2, TB: 3},
+		{Name: "transaction-vs-iter", Cfg: "bigbatch/bytewise", Pre: []string{"put:a"}, Clients: [][]string{{"tr:+a,+b"}, {"iterscan"}, {"get:b", "get:a"}}, QB: 1, TB: 3},
 		{Name: "compact-vs-rw", Cfg: "flushy/bytewise", Pre: []string{"put:a", "put:b", "q"}, Clients: [][]string{{"put:a"}, {"cr"}, {"get:a", "get:b"}}, QB: 1, TB: 2},
 		{Name: "bigbatch-vs-reader", Cfg: "bigbatch/bytewise", Pre: []string{"put:a", "put:b"}, Clients: [][]string{{"w:+a,+b,-a,+a"}, {"snapget:a,b"}}, QB: 1, TB: 2},
 	}
